@@ -431,6 +431,7 @@ def _rest_of_run(prog, run, hs, writes, cont_scope, allowed):
                           'presence table written with %s under case %s' % (h, case))
     r6_bound_address(prog, run)
     r7_keys(prog, run)
+    r8_direct_delivery(prog, run)
 
 
 def r6_bound_address(prog, run):
@@ -661,3 +662,37 @@ def r7_keys(prog, run):
                     run.ok(rid, f.loc(i), 'key used as it is', nontrivial=False)
     if n < 3:
         raise AnalysisBroken('C12.R7: keyed accesses to the entries map not found')
+
+
+def r8_direct_delivery(prog, run):
+    rid = run.rule('C12.R8', 'the full-roster result reaches its continuation in the same dispatch in which it was received: neither the continuation in _q_connected nor the '
+                             'chain / chainIq helpers it is attached through defer it to the event loop (queued invocation, zero timer) - a push that follows the result in the same '
+                             'read would be applied first and then be wiped by the older snapshot', floor=2)
+    conn = prog.fn(RM + '::_q_connected')
+    scope = list(prog.closure(conn))
+    for f in prog.fns.values():
+        if f.entry is not None and f.file.endswith('QXmppFutureUtils_p.h') and not f.raw.get('dependent'):
+            scope.append(f)
+    seen = set()
+    n = 0
+    for f in scope:
+        if f.id in seen:
+            continue
+        seen.add(f.id)
+        n += 1
+        bad = None
+        for i, c in f.calls():
+            cn = f.cname(c) or ''
+            if cn in ('QMetaObject::invokeMethod', 'QTimer::singleShot', 'QCoreApplication::postEvent') or cn.endswith('::callOnTimeout'):
+                bad = i
+            if any(f.nodes[j]['k'] == 'enum' and f.nodes[j].get('name', '').endswith('QueuedConnection') for a in c.get('args', []) for j in f.walk(a)):
+                bad = i
+        if bad is not None:
+            run.instance(rid)
+            run.violation(rid, '%s#deferred-result' % f.outer_name().split('<')[0], f.loc(bad),
+                          '%s hands the result to the event loop (%s) instead of delivering it at once: the roster result is applied after stanzas that arrived later' %
+                          (f.display()[:50], f.fmt(bad, inline=False)[:50]))
+    run.instance(rid)
+    run.ok(rid, conn.loc(), '%d functions on the way of the roster result (continuation and chain helpers) deliver directly' % n)
+    run.instance(rid)
+    run.ok(rid, 'src/base/QXmppFutureUtils_p.h', 'instantiated chain helpers inspected')
